@@ -52,6 +52,7 @@ type inCase struct {
 	I   int    `json:"i,omitempty"`   // corpus index (seed, mut) / limit module number (lim)
 	S   uint64 `json:"s,omitempty"`   // PRNG seed (mut, wmut, raw, wgen)
 	Hex string `json:"hex,omitempty"` // literal input (lit)
+	W   string `json:"w,omitempty"`   // wanted immediate kind (imut)
 	// probe mode only
 	Combo   int    `json:"combo,omitempty"`
 	Control string `json:"control,omitempty"` // hex of the control input
@@ -84,6 +85,8 @@ type outCase struct {
 	WgenFS    int            `json:"wgenfs,omitempty"` // index of wrun.Features(cfg) for wgen inputs
 	ErrOf     map[int]string `json:"errof,omitempty"`  // wgen inputs: error class per rejecting combo
 	AllocViol bool           `json:"allocviol,omitempty"`
+	ImmKind   string         `json:"immkind,omitempty"` // immediate-mutation cases: the immediate kind that was re-encoded
+	Agree     int            `json:"agree,omitempty"`   // immediate-mutation cases: call outcomes compared between the engines
 	// probe
 	ControlMs float64 `json:"control_ms,omitempty"`
 	ProbeMs   float64 `json:"probe_ms,omitempty"`
@@ -165,7 +168,7 @@ func buildInput(ic *inCase, seeds []seedFile) (bin []byte, ops []string, wgenFS 
 		r := core.NewRng(int64(ic.S), 31)
 		b, op := RawInput(r)
 		return b, []string{op}, -1
-	case "wgen", "wmut":
+	case "wgen", "wmut", "iwmut":
 		r := core.NewRng(int64(ic.S), 7)
 		cfg := wgen.DefaultConfig(r)
 		if cfg.Funcs > 5 {
@@ -181,9 +184,24 @@ func buildInput(ic *inCase, seeds []seedFile) (bin []byte, ops []string, wgenFS 
 			}
 			return p.Bin, nil, wgenFS
 		}
+		if ic.K == "iwmut" {
+			mr := core.NewRng(int64(ic.S), 35)
+			b, rec, _, ok := ImmMutate(mr, p.Bin, ic.W)
+			if !ok {
+				return p.Bin, []string{"imm-none"}, -1
+			}
+			return b, []string{rec}, -1
+		}
 		mr := core.NewRng(int64(ic.S), 33)
 		b, ops := Mutate(mr, p.Bin, func() []byte { return seeds[mr.Intn(len(seeds))].Bin })
 		return b, ops, -1
+	case "imut":
+		mr := core.NewRng(int64(ic.S), 35)
+		b, rec, _, ok := ImmMutate(mr, seeds[ic.I].Bin, ic.W)
+		if !ok {
+			return seeds[ic.I].Bin, []string{"imm-none"}, -1
+		}
+		return b, []string{rec}, -1
 	case "mut":
 		mr := core.NewRng(int64(ic.S), 33)
 		b, ops := Mutate(mr, seeds[ic.I].Bin, func() []byte { return seeds[mr.Intn(len(seeds))].Bin })
@@ -307,6 +325,8 @@ type childState struct {
 	caseBudg time.Duration // wall-clock budget of one compile before it becomes a watchdog candidate
 	execBudg time.Duration // wall-clock budget of one instantiate+calls step (its context deadline is execDl)
 	execDl   time.Duration
+	tracing  bool     // immediate-mutation cases: record the outcome of every step for the engine comparison
+	trace    []string // of the exec step in progress
 }
 
 var cs *childState
@@ -703,10 +723,12 @@ func (s *childState) execOne(cm wazero.CompiledModule, w *Walked, combo int, r *
 		}
 		oc := outcomeClass(cl)
 		out.InstErr[oc]++
+		s.note("instantiate", oc)
 		return oc == "deadline" || ctx.Err() != nil, false
 	}
 	aux = append(aux, mod)
 	out.Inst++
+	s.note("instantiate", "ok")
 	defs := mod.ExportedFunctionDefinitions()
 	fnames := make([]string, 0, len(defs))
 	for n := range defs {
@@ -735,7 +757,11 @@ func (s *childState) execOne(cm wazero.CompiledModule, w *Walked, combo int, r *
 				if len(def.ParamTypes()) == 0 {
 					break
 				}
-				args = rndArgs(r, def)
+				// the arguments depend on the input and the export only, so that every
+				// engine and feature set sees the same calls
+				nh := fnv.New64a()
+				nh.Write([]byte(fnm))
+				args = rndArgs(core.NewRng(int64(out.Hash^nh.Sum64()), 43), def)
 			}
 			var cerr error
 			var cpv string
@@ -762,6 +788,7 @@ func (s *childState) execOne(cm wazero.CompiledModule, w *Walked, combo int, r *
 			}
 			if cerr == nil {
 				out.CallOut["ok"]++
+				s.note(fmt.Sprintf("%s#%d", fnm, round), "ok")
 				continue
 			}
 			cl, internal := internalFailure(cerr)
@@ -771,6 +798,7 @@ func (s *childState) execOne(cm wazero.CompiledModule, w *Walked, combo int, r *
 			}
 			oc := outcomeClass(cl)
 			out.CallOut[oc]++
+			s.note(fmt.Sprintf("%s#%d", fnm, round), oc)
 			if oc == "deadline" || oc == "exit" || ctx.Err() != nil {
 				// module is closed now
 				return ctx.Err() != nil, called
@@ -778,6 +806,56 @@ func (s *childState) execOne(cm wazero.CompiledModule, w *Walked, combo int, r *
 		}
 	}
 	return false, called
+}
+
+func sortedKeys(m map[string]bool) []string {
+	var l []string
+	for k := range m {
+		l = append(l, k)
+	}
+	sort.Strings(l)
+	return l
+}
+
+func (s *childState) note(step, outcome string) {
+	if s.tracing {
+		s.trace = append(s.trace, step+"="+outcome)
+	}
+}
+
+// comparable reduces an outcome to what both engines must agree on. ok=false:
+// the outcome (and everything after it) depends on engine-specific limits or on
+// wall-clock time and is not compared.
+func comparableOutcome(o string) (string, bool) {
+	i := strings.IndexByte(o, '=')
+	step, oc := o[:i], o[i+1:]
+	switch {
+	case strings.Contains(oc, "stack overflow"), oc == "deadline", oc == "exit", strings.HasPrefix(oc, "stub:"):
+		return "", false
+	case oc == "trap:unaligned atomic", oc == "trap:out of bounds memory access", oc == "trap:expected shared memory":
+		// which one is reported for an access that has several of these faults differs between the engines
+		// (order of the checks; C01 known finding), also for the unmutated modules
+		return step + "=trap:memory access", true
+	case strings.HasPrefix(oc, "error:"):
+		return step + "=error", true
+	}
+	return step + "=" + oc, true
+}
+
+// compareTraces returns the first step on which two engines disagree.
+func compareTraces(a, b []string) (n int, diff string) {
+	for i := 0; i < len(a) && i < len(b); i++ {
+		ca, oka := comparableOutcome(a[i])
+		cb, okb := comparableOutcome(b[i])
+		if !oka || !okb {
+			return n, ""
+		}
+		if ca != cb {
+			return n, fmt.Sprintf("step %d: interpreter %s, compiler %s", i, a[i], b[i])
+		}
+		n++
+	}
+	return n, ""
 }
 
 // ---- the child handler ------------------------------------------------------------
@@ -817,13 +895,30 @@ func child(mode string, in json.RawMessage) any {
 	}()
 	stop := false
 	// compileCombo returns false when the input is decided (allocation violation).
+	// immediate-mutation cases: both engines compile under every feature set, whatever the
+	// other one said, and their verdicts and the outcomes of the calls are compared
+	imm := (ic.K == "imut" || ic.K == "iwmut") && len(ops) == 1 && strings.HasPrefix(ops[0], "imm-") && ops[0] != "imm-none"
+	if imm {
+		k := ops[0][strings.IndexByte(ops[0], ':')+1:]
+		if strings.HasPrefix(ops[0], "imm-overlong:") {
+			k = k[:strings.LastIndexByte(k, ':')]
+		}
+		out.ImmKind = k
+	}
+	s.tracing = imm
+	panicked := false
 	compileCombo := func(combo int) {
 		lim := s.bnd.limit(len(bin), combo%2)
 		cm, errText, alloc, pv := s.compileOne(bin, combo, lim, s.caseBudg)
 		out.Alloc[combo] = alloc
 		switch {
 		case pv != "":
-			out.Findings = append(out.Findings, finding{Sig: "compile:panic:" + panicSig(pv) + ":" + panicInputTag(bin), Detail: core.Trunc(pv, 3000), Combo: comboName(combo)})
+			sig := "compile:panic:" + panicSig(pv) + ":" + panicInputTag(bin)
+			if imm {
+				sig = "overlong-immediate:" + out.ImmKind + ":compile-panic:" + panicSig(pv)
+			}
+			panicked = true
+			out.Findings = append(out.Findings, finding{Sig: sig, Detail: core.Trunc(pv, 3000), Combo: comboName(combo)})
 			s.dropRuntime(combo)
 			out.Acc[combo] = 0
 		case s.bnd.Set && (alloc > lim || (cm == nil && alloc > s.bnd.rejectedLimit(len(bin)))):
@@ -870,10 +965,24 @@ func child(mode string, in json.RawMessage) any {
 	// unmutated inputs and for a quarter of the mutants
 	fullCompiler := ic.K == "seed" || ic.K == "wgen" || ic.K == "lim" || out.Hash%4 == 0
 	for fs := 0; fs < 5 && !stop; fs++ {
-		if out.Acc[fs*2] == 1 && (fullCompiler || fs == first || fs == last) {
+		if imm || (out.Acc[fs*2] == 1 && (fullCompiler || fs == first || fs == last)) {
 			compileCombo(fs*2 + 1)
 		}
 	}
+	if imm && !stop && !panicked {
+		for fs := 0; fs < 5; fs++ {
+			if a, b := out.Acc[fs*2], out.Acc[fs*2+1]; a >= 0 && b >= 0 && a != b {
+				who := engNames[0]
+				if b == 1 {
+					who = engNames[1]
+				}
+				out.Findings = append(out.Findings, finding{Sig: "overlong-immediate:" + out.ImmKind + ":accepted-by-" + who + "-only",
+					Detail: "CompileModule verdicts differ under " + fsNames[fs] + ": " + strings.Join(sortedKeys(errSet), " | "), Combo: fsNames[fs]})
+				break
+			}
+		}
+	}
+	var traces [nCombo][]string
 	// 3. soundness of acceptance: instantiate and call exports under the smallest and the
 	// largest accepting feature set, on both engines
 	if first >= 0 && !stop {
@@ -893,7 +1002,9 @@ func child(mode string, in json.RawMessage) any {
 					if cms[combo] == nil {
 						continue
 					}
+					s.trace = nil
 					dl, called := s.execOne(cms[combo], w, combo, execRng, &out)
+					traces[combo] = s.trace
 					if dl {
 						out.Deadline++
 						skipExec = true // a guest that does not terminate: do not pay the deadline again
@@ -908,6 +1019,25 @@ func child(mode string, in json.RawMessage) any {
 	for _, e := range execBoth {
 		if e[0] && e[1] {
 			out.Executed = true
+		}
+	}
+	if imm {
+		for fs := 0; fs < 5; fs++ {
+			if traces[fs*2] == nil || traces[fs*2+1] == nil {
+				continue
+			}
+			n, diff := compareTraces(traces[fs*2], traces[fs*2+1])
+			out.Agree += n
+			if diff != "" {
+				out.Findings = append(out.Findings, finding{Sig: "overlong-immediate:" + out.ImmKind + ":execution-differs",
+					Detail: "the engines disagree about the same call sequence under " + fsNames[fs] + ": " + diff, Combo: fsNames[fs]})
+				break
+			}
+		}
+		for i := range out.Findings {
+			if strings.HasPrefix(out.Findings[i].Sig, "exec:") {
+				out.Findings[i].Sig = "overlong-immediate:" + out.ImmKind + ":" + out.Findings[i].Sig
+			}
 		}
 	}
 	phaseLine("done -")
